@@ -375,6 +375,9 @@ func (m *Module) renderTypes(p *Pkg) world.File {
 			}
 			items = append(items, m.item(p.Idx, m.Types[ti], imports))
 		}
+		if s.Dup && len(items) > 0 {
+			items = append(items, items[0])
+		}
 		for _, n := range s.Nested {
 			ns := m.Sets[n]
 			if ns.Pkg == p.Idx {
